@@ -462,7 +462,14 @@ func check(c Case, r *vh.R) {
 	// anything either: every octet EVER output has to be authenticated payload.
 	for extra := 0; extra < 4; extra++ {
 		dst := make([]byte, sizes[extra%len(sizes)]+1)
-		n, _ := dec.Read(dst)
+		n, rerr := dec.Read(dst)
+		if final != io.EOF && rerr == io.EOF && (!committed || len(out)+n < len(p)) {
+			// "reports clean end-of-stream only after delivering that payload completely": a consumer
+			// that reads on after the error (bufio.Reader, io.MultiReader, a retry loop) must not be
+			// told that the stream ended cleanly
+			r.Failf("clean-eof-after-error", "%s: after reporting %v (with %d of %d payload octets delivered) a further Read reports a clean io.EOF", what(), final, len(out), len(p))
+			return
+		}
 		if n < 0 || n > len(dst) {
 			r.Failf("bad-count", "Read(dst of %d) after the final error returned n=%d", len(dst), n)
 			return
